@@ -611,7 +611,27 @@ func (c18) Check(out *sim.Outcome, ri *RunInfo) []Violation {
 						}
 					}
 				}
-				if it.Err != nil && queried == 0 {
+				// a caller that asked nobody may still report a failure if it shared (single-flight) a query
+				// that somebody else made while this call was in progress and that failed
+				sharedFailure := false
+				for _, f := range fetches {
+					if !f.ok && f.start <= it.EndAt && f.end >= it.StartAt {
+						sharedFailure = true
+					}
+				}
+				if family == "cache-ip" {
+					for _, cs2 := range w.Calls {
+						for _, it2 := range cs2.Iters {
+							if it2.Err != nil && it2.DialsDuring > 0 && it2.StartAt <= it.EndAt && it2.EndAt >= it.StartAt {
+								sharedFailure = true
+							}
+						}
+					}
+				}
+				if it.Err != nil && queried == 0 && sharedFailure {
+					ri.probe("failure-shared-with-overlapping-query")
+				}
+				if it.Err != nil && queried == 0 && !sharedFailure {
 					vs = append(vs, Violation{Rule: "C18.error-cached", Detail: fmt.Sprintf("%s returned error %v without querying the service: a failure came out of the cache", who, it.Err), Facts: facts("family", family)})
 				}
 				if it.Err == nil && queried == 0 {
